@@ -125,6 +125,24 @@ func TestC12L1(t *testing.T) {
 				}
 			}
 			digest := e.Digest()
+			if rapid.IntRange(0, 5).Draw(rt, "discard") == 0 {
+				// the message runs on a branch that is thrown away (CheckTx, simulation, or a transaction whose
+				// later message fails): whatever it did must not influence who holds a role
+				cctx, _ := e.Ctx.CacheContext()
+				saved := e.Ctx
+				e.Ctx = cctx
+				r := e.Deliver(msg)
+				e.Ctx = saved
+				log = append(log, fmt.Sprintf("[discarded branch] %s(bridge %d) by %s -> %v", kind, b.id, short(signer), r.Err))
+				if r.OK() && !allowed {
+					rt.Fatalf("C12 violated at step %d: %s succeeded (on a branch) for a signer that holds no allowed role\nhistory:\n%s", i, kind, strings.Join(log, "\n"))
+				}
+				if digest != e.Digest() {
+					rt.Fatalf("C12 violated at step %d: a discarded branch changed state\nhistory:\n%s", i, strings.Join(log, "\n"))
+				}
+				c.Class("L1/discarded-branch")
+				return
+			}
 			r := e.Deliver(msg)
 			log = append(log, fmt.Sprintf("%s(bridge %d) by %s [gov=%v proposer=%v challenger=%v former=%v] -> %v", kind, b.id, short(signer), isGov, isP, isC, former, r.Err))
 			if r.OK() && !allowed {
@@ -272,7 +290,7 @@ func TestC12L2(t *testing.T) {
 				}
 				repoint := "none"
 				if info != nil {
-					repoint = rapid.SampledFrom([]string{"none", "none", "id", "addr", "chain", "client"}).Draw(rt, "repoint")
+					repoint = rapid.SampledFrom([]string{"none", "none", "id", "addr", "chain", "client", "client-empty"}).Draw(rt, "repoint")
 				}
 				switch repoint {
 				case "id":
@@ -283,6 +301,8 @@ func TestC12L2(t *testing.T) {
 					ni.L1ChainId = "l1-other"
 				case "client":
 					ni.L1ClientId = ni.L1ClientId + "x"
+				case "client-empty":
+					ni.L1ClientId = ""
 				}
 				if repoint == "none" && rapid.Bool().Draw(rt, "setclient") && ni.L1ClientId == "" {
 					ni.L1ClientId = "07-tendermint-1"
